@@ -95,6 +95,8 @@ class Ctx:
         self.cur_globals = []
         self.inline_depth = 0
         self.loop_cache = {}
+        self.cur_module = None
+        self.cur_class = None
 
     # ------------------------------------------------------------------------------------------------ sources
     def _accessors(self):
@@ -345,6 +347,12 @@ class Ctx:
                 return h(ex, e, args, kwargs, p)
             if ex.side != "real" and n.isupper() or (ex.side != "real" and re.fullmatch(r"[A-Z][A-Z0-9_]*", n)):
                 return self.spec_primitive(ex, e, n, args, kwargs, p)
+            if ex.side == "real":
+                # a module-level helper of the same module that has no contract of its own: its body is part of the caller's obligation
+                fdef, _ = self.extract(self.cur_module, n) if self.cur_module else (None, None)
+                if isinstance(fdef, ast.FunctionDef):
+                    ex.notes.append("helper %s() has no contract: inlined at line %s" % (n, getattr(e, "lineno", "?")))
+                    return self.inline(ex, e, fdef, args, kwargs, p)
             raise Unsupported("call of unknown function %s" % n, e)
         if isinstance(f, ast.Attribute):
             ref = self.dotted(ex, f)
@@ -392,7 +400,14 @@ class Ctx:
                 elif ex.side != "real":
                     res.append((app("m_" + mname, asV(obj), *[asV(a) for a in args]), p2))
                 else:
-                    raise Unsupported("method .%s has no assumed contract" % mname, e)
+                    fdef = None
+                    if isinstance(f.value, ast.Name) and f.value.id == "self" and self.cur_class and self.cur_module:
+                        fdef, _ = self.extract(self.cur_module, self.cur_class + "." + mname)
+                    if isinstance(fdef, ast.FunctionDef):
+                        ex.notes.append("helper method self.%s() has no contract: inlined at line %s" % (mname, getattr(e, "lineno", "?")))
+                        res.extend(self.inline(ex, e, fdef, [obj] + list(args), kwargs, p2))
+                    else:
+                        raise Unsupported("method .%s has no assumed contract" % mname, e)
             return res
         if isinstance(f, (ast.Subscript, ast.Call)):
             res = []
@@ -483,9 +498,19 @@ class Ctx:
         """methods of opaque library objects (antlr4 parser / walker): the receiver is updated in place (state threading keeps the
         order of calls observable), the call may raise, the result is a function of receiver state and arguments"""
         l = ex.loc(f.value, p)
-        if l is None:
-            raise Unsupported("method .%s on a value without location" % mname, e)
         self.assumed.add("A-antlr-tree")
+        if l is None or l.get(p) is None:
+            # receiver is a temporary (e.g. the result of a helper call): its updated state is not observable afterwards
+            if mname == "walk":
+                raise Unsupported("walk() on a temporary walker", e)
+            res = []
+            for obj, p2 in ex.ev(f.value, p):
+                cur = asV(obj)
+                av = [asV(a) for a in args]
+                q = ex.may_raise(p2, code("meth_" + mname, cur, *av), app("meth_%s_msg" % mname, cur, *av), e.lineno)
+                if q is not None:
+                    res.append((app("ret_" + mname, cur, *av), q))
+            return res
         q = p.copy()
         cur = asV(l.get(q))
         av = [asV(a) for a in args]
@@ -619,7 +644,10 @@ class Ctx:
             l.set(q, app("%s!post!%s" % (nm, m), *allv))
             ex.note_write(l.key)
             self.effect(ex, q, "callee-modifies:" + c.name, l.key, e)
-        return [(app(nm + "!ret", *allv), q)]
+        ret = app(nm + "!ret", *allv)
+        if c.ctor:
+            q = q.assume(z3.And(ret != NONE, truthy(ret)))
+        return [(ret, q)]
 
     # ------------------------------------------------------------------------------------------------ while (contract-given invariant)
     def whileloop(self, ex, s, p):
